@@ -7,6 +7,7 @@ import Driver.StreamD
 import Driver.LifeD
 import Driver.PendD
 import Driver.ChanD
+import Driver.SessD
 /-!
 # `limedriver` — line protocol in front of the executable model
 
@@ -31,6 +32,7 @@ def dispatch (j : Json) : R Json := do
   | "cliwants" => CliD.handleWants j
   | "clijudge" => CliD.handleJudge j
   | "build" => CodecD.handleBuild j
+  | "sessions" => SessD.handle j
   | "chanjudge" => ChanD.handle j
   | "pend" => PendD.handle j
   | "life" => LifeD.handle j
